@@ -102,7 +102,9 @@ def battery(e, rng, limit_rows=2):
         vals = [col.raw_get(r) for r in rows[:3]]
         calls.append(('fetch_table', t, True, {c.colId: vals + [['L', 1]]}))
       sample = rows if len(rows) <= limit_rows else rng.sample(rows, limit_rows)
-      for r in sample:
+      # a row id that does not exist: formulas with side effects (lookupOrAddDerived) then really add a record,
+      # which get_formula_value has to undo
+      for r in sample + ([max(rows) + 7] if rows and c.formula and 'lookupOrAddDerived' in c.formula else []):
         calls.append(('get_formula_error', t, c.colId, r))
         if c.formula:
           calls.append(('evaluate_formula', t, c.colId, r))
@@ -357,3 +359,82 @@ def shrink(v):
   except Exception:
     pass
   return v
+
+
+# ---------------------------------------------------------------------------------------------------------------
+# tie: the doc actions a formula performs inside get_formula_value, replayed by the model
+
+EVAL_TIE_CHECK = (
+  'fun c : doc * (Z -> list Z) * list event * bool => '
+  'let \'(d, ord, es, restored) := c in '
+  'match state_after ord (init_state d []) es with '
+  '| Some st => match rollback ord 0 st with '
+  '    | Some d2 => Bool.eqb (bool_decide (d2 = d)) restored | None => false end '
+  '| None => false end')
+
+
+def correspond(ctx):
+  import random
+  tc = c04.TieCollector(ctx.n(8, 60))
+  hooks = tc.hooks()
+  cases = []
+  budget = ctx.n(8, 80)
+  tried = 0
+  for h in range(ctx.n(6, 40)):
+    rng = random.Random(ctx.rng.getrandbits(48))
+    gen = Gen(rng)
+    ld = c04.LoggedDoc()
+    def ap(b):
+      if ld.try_apply(b) is not None:
+        gen.after_bundle(ld.e)
+    for _ in range(2):
+      ap([gen.gen_addtable(histgen.Meta(ld.e))])
+    for kind in ('addrec', 'derived', 'summary', 'addrec', 'updrec'):
+      a = gen.gen(kind, histgen.Meta(ld.e))
+      if a is not None:
+        ap([a])
+    for call in battery(ld.e, rng):
+      if call[0] not in ('get_formula_error', 'evaluate_formula') or budget <= 0:
+        continue
+      kind, what, info = check_call(ld.e, call, hooks=hooks)
+      tried += 1
+      if kind == 'evaluate-formula-poisons-auto-remove-set':
+        import records
+        s_ = ld.e.docmodel._auto_remove_set
+        for x in [x for x in s_ if not isinstance(x, records.Record)]:
+          s_.discard(x)
+      if not [d for d in info['docs'] if d['completed']]:
+        continue
+      run = c04.Run()
+      run.events, run.docs = info['events'], info['docs']
+      plan = c04.tie_plan(run)
+      if plan is None:
+        ctx.bump('tie:evaluation-with-events-outside-the-model')
+        continue
+      # second pass on an identically rebuilt document: encode before, call, encode after
+      ld2 = c04.LoggedDoc(ld.log)
+      enc = RM.Enc()
+      d0 = enc.doc(ld2.e, plan['tables'])
+      o = enc.ord(ld2.e, plan['tables'])
+      with RI.REC.session():
+        try:
+          perform(ld2.e, call)
+        except Exception:
+          pass
+      es = c04.enc_events(enc, plan['events'])
+      after = enc.doc(ld2.e, plan['tables'])
+      cases.append(('(%s, %s, %s, %s)' % (d0, o, es, core.boollit(after == d0)),
+                    '%r on %s' % (call, json.dumps(ld.log, default=repr)[:300])))
+      budget -= 1
+  ctx.extra['tie_evaluations_with_side_effects'] = len(cases)
+  ctx.extra['tie_doc_actions'] = dict(tc.per_kind)
+  ctx.log('tie: %d evaluations tried, %d with doc actions inside, %d doc actions' % (tried, len(cases), len(tc.cases)))
+  bad = ctx.run_cases('evalrollback', RM.IMPORTS, EVAL_TIE_CHECK, [c for c, _ in cases], shard=20,
+                      extra_defs=RM.EXTRA_DEFS, timeout=600)
+  for i in bad[:5]:
+    ctx.broken('correspondence:Model/Rollback.v does not reproduce the rollback of a read-only evaluation', cases[i][1])
+  bad = ctx.run_cases('docsteps', RM.IMPORTS, c04.DOC_TIE_CHECK, [c for c, _ in tc.cases], shard=30,
+                      extra_defs=RM.EXTRA_DEFS, timeout=600)
+  for i in bad[:5]:
+    ctx.broken('correspondence:micro-step order / state / undo of a doc action differs from Model/Rollback.v',
+               tc.cases[i][1])
